@@ -32,11 +32,11 @@ def rowOf (version base : Nat) (w : WRow) : Row :=
     basicBlock := w.basicBlock, endSequence := false, prologueEnd := w.prologueEnd,
     epilogueBegin := w.epilogueBegin, isa := w.isa, discriminator := w.discriminator }
 
-/-- what `LineProgram::new` requires of `line_base`/`line_range` (documented), plus the bound
-under which every special opcode fits a byte — `new` itself enforces `line_range ≤ 127` in debug
-builds, see `new_accepts_iff` and finding C13-2 for release builds -/
+/-- exactly what `LineProgram::new` requires of `line_base`/`line_range` (`new_accepts_iff`):
+`line_base` −128..0, `line_range` 1..255 with `line_base + line_range > 0` — plus non-zero
+`minimum_instruction_length` and `maximum_operations_per_instruction` (which a reader insists on) -/
 def EncOk (e : Enc) : Prop :=
-  -128 ≤ e.lineBase ∧ e.lineBase ≤ 0 ∧ 0 < e.lineBase + e.lineRange ∧ e.lineRange ≤ 243 ∧
+  -128 ≤ e.lineBase ∧ e.lineBase ≤ 0 ∧ 0 < e.lineBase + e.lineRange ∧ e.lineRange ≤ 255 ∧
   1 ≤ e.minInstLen ∧ 1 ≤ e.maxOps
 
 instance (e : Enc) : Decidable (EncOk e) := by unfold EncOk; infer_instance
@@ -62,7 +62,7 @@ theorem reset_rowOf (h : Params) (version base : Nat) (w : WRow) :
   simp [reset, rowOf, WRow.cleared]
 
 /-- **`generate_row` is correct — whichever opcode it chooses.** For every `LineEncoding` with
-`line_base ≤ 0 < line_base + line_range` (and `line_range ≤ 243`), every
+`line_base ≤ 0 < line_base + line_range` (`line_base` −128..0, `line_range` 1..255), every
 `minimum_instruction_length ≥ 1`, every `maximum_operations_per_instruction ≥ 1`, every version,
 address size 1/2/4/8, both build modes, every previous row `prev` (as `generate_row` leaves it:
 per-row fields cleared) and every next row `row` that is a legal successor (`StepOk`):
@@ -185,84 +185,52 @@ theorem special_opcode_in_range_debug (e : Enc) (prev row : WRow) (is : List WIn
   exact finalPart_debug_range e s us op hF
 
 /-- **Every emitted `Special(op)` has 13 ≤ op ≤ 255 — any build mode**, for every `LineEncoding`
-with `line_base ≤ 0 < line_base + line_range` and `line_range ≤ 243` (in particular every one
-that `LineProgram::new` accepts in a debug build, `new_accepts_iff`), every
-min_inst_len/max_ops, every pair of rows for which `generate_row` returns. -/
+that `LineProgram::new` accepts (`line_base` −128..0, `line_range` 1..255,
+`line_base + line_range > 0`, see `new_accepts_iff`), every min_inst_len/max_ops, every pair of
+rows for which `generate_row` returns. -/
 theorem special_opcode_in_range (m : Mode) (e : Enc) (prev row : WRow) (is : List WInstr) (row' : WRow)
     (h1 : -128 ≤ e.lineBase) (h2 : e.lineBase ≤ 0) (hr : 0 < e.lineBase + e.lineRange)
-    (hlr : e.lineRange ≤ 243)
+    (hlr : e.lineRange ≤ 255)
     (h : generateRow m e prev row = .ok (is, row')) (op : Nat) (hm : WInstr.special op ∈ is) :
     13 ≤ op ∧ op ≤ 255 := by
   obtain ⟨la, oa, ais, hla, hadv, hm'⟩ := generateRow_special_mem m e prev row is row' h op hm
   exact advanceInstrs_special_range m e la oa ais h1 h2 hr hlr (lineAdvance_range m _ _ la hla) hadv op hm'
 
-/-- the `LineEncoding` of finding C13-2 -/
+/-- the `LineEncoding` of the repaired finding C13-2: the widest one -/
 def enc255 : Enc :=
   { version := 4, minInstLen := 1, maxOps := 1, defaultIsStmt := true, lineBase := -128, lineRange := 255 }
 
-/-- **Finding C13-2, pinned** (release builds; the full statement of `special_opcode_in_range`
-without `line_range ≤ 243` is FALSE): `line_base = −128`, `line_range = 255` passes
-`LineProgram::new` in a release build (`new_accepts_iff`), and a line advance of +120 is encoded
-as `Special(261 as u8 = 5)`, i.e. `DW_LNS_set_column`, which is not a special opcode. -/
-theorem special_opcode_counterexample :
-    newCheck .release enc255.lineBase enc255.lineRange = .ok () ∧
-    generateRow .release enc255 (WRow.initial enc255) { WRow.initial enc255 with line := 121 } =
-      .ok ([.special 5], { WRow.initial enc255 with line := 121 }) := by
-  decide
+/-- **Regression for the repaired finding C13-2** (`f134118`): with `line_base = −128`,
+`line_range = 255` a line advance of +120 would need special opcode 261; the writer now falls back
+to `advance_line` + `copy` (it used to emit `261 as u8 = 5 = DW_LNS_set_column` in release builds),
+while +114 still gets the last special opcode 255. -/
+theorem special_opcode_regression (m : Mode) :
+    newCheck m enc255.lineBase enc255.lineRange = .ok () ∧
+    generateRow m enc255 (WRow.initial enc255) { WRow.initial enc255 with line := 121 } =
+      .ok ([.advanceLine 120, .copy], { WRow.initial enc255 with line := 121 }) ∧
+    generateRow m enc255 (WRow.initial enc255) { WRow.initial enc255 with line := 115 } =
+      .ok ([.special 255], { WRow.initial enc255 with line := 115 }) := by
+  cases m <;> decide
 
-/-- **What `LineProgram::new` accepts** (its two `assert!`s, with `line_range as i8`): in a debug
-build exactly `line_base ≤ 0 < line_base + line_range` **and `line_range ≤ 127`**; in a release
-build `line_range ≥ 128` also passes when `line_base + line_range ≤ 127` (the `i8` sum wraps).
-The documented contract is the first conjunct alone — finding C13-1: e.g. gcc's own
-`line_base = −10`, `line_range = 242` is refused. -/
-theorem new_accepts_iff (m : Mode) (lineBase : Int) (lineRange : Nat)
-    (hb : -128 ≤ lineBase ∧ lineBase ≤ 127) (hr : lineRange ≤ 255) :
-    newCheck m lineBase lineRange = .ok () ↔
-      (lineBase ≤ 0 ∧ 0 < lineBase + lineRange ∧
-        (lineRange ≤ 127 ∨ (m = .release ∧ lineBase + lineRange ≤ 127))) := by
+/-- **What `LineProgram::new` accepts** (its two `assert!`s, as repaired in `1141615`): in both
+build modes exactly the documented contract `line_base ≤ 0 < line_base + line_range` — every
+`line_base` −128..0 and `line_range` 1..255 whose sum is positive. -/
+theorem new_accepts_iff (m : Mode) (lineBase : Int) (lineRange : Nat) :
+    newCheck m lineBase lineRange = .ok () ↔ (lineBase ≤ 0 ∧ 0 < lineBase + lineRange) := by
   unfold newCheck
   by_cases h0 : lineBase ≤ 0
   · rw [if_neg (by omega)]
-    simp only
-    have hw : wrapI8 (lineRange : Int) = if lineRange ≤ 127 then (lineRange : Int) else (lineRange : Int) - 256 := by
-      unfold wrapI8; split <;> omega
-    by_cases hs : lineRange ≤ 127
-    · rw [hw, if_pos hs]
-      have hin : -128 ≤ lineBase + (lineRange : Int) ∧ lineBase + (lineRange : Int) ≤ 127 := by omega
-      have hw2 : wrapI8 (lineBase + (lineRange : Int)) = lineBase + lineRange := by unfold wrapI8; omega
-      rw [if_neg (by simp [hin]), hw2]
-      by_cases hp : lineBase + (lineRange : Int) > 0
-      · rw [if_pos hp]; simp; omega
-      · rw [if_neg hp]; simp; omega
-    · rw [hw, if_neg hs]
-      cases m with
-      | debug =>
-        have : ¬ (-128 ≤ lineBase + ((lineRange : Int) - 256) ∧ lineBase + ((lineRange : Int) - 256) ≤ 127) ∨
-            ¬ (wrapI8 (lineBase + ((lineRange : Int) - 256)) > 0) := by
-          unfold wrapI8; omega
-        by_cases hin : -128 ≤ lineBase + ((lineRange : Int) - 256) ∧ lineBase + ((lineRange : Int) - 256) ≤ 127
-        · rw [if_neg (by simp [hin])]
-          have hp : ¬ wrapI8 (lineBase + ((lineRange : Int) - 256)) > 0 := by
-            rcases this with h | h
-            · exact absurd hin h
-            · exact h
-          rw [if_neg hp]; simp; omega
-        · rw [if_pos ⟨rfl, hin⟩]; simp; omega
-      | release =>
-        rw [if_neg (by simp)]
-        by_cases hp : wrapI8 (lineBase + ((lineRange : Int) - 256)) > 0
-        · rw [if_pos hp]
-          unfold wrapI8 at hp
-          simp; omega
-        · rw [if_neg hp]
-          unfold wrapI8 at hp
-          simp; omega
-  · rw [if_pos (by omega)]
+    by_cases hp : lineBase + (lineRange : Int) > 0
+    · rw [if_pos hp]; simp; omega
+    · rw [if_neg hp]; simp; omega
+  · rw [if_pos h0]
     simp; omega
 
-/-- **Finding C13-1, pinned**: gcc's line_base/line_range are refused in both build modes -/
-theorem new_rejects_gcc_encoding (m : Mode) : (newCheck m (-10) 242).isOk = false := by
+/-- **Regression for the repaired finding C13-1**: gcc's own `line_base = −10`, `line_range = 242`
+is accepted in both build modes (it used to hit the `line_range as i8` assert) -/
+theorem new_accepts_gcc_encoding (m : Mode) : newCheck m (-10) 242 = .ok () := by
   cases m <;> decide
+
 /-! ## file identity -/
 
 /-- **File ids are stable and identify the key.** For every program state and every
@@ -765,7 +733,7 @@ def encV : Enc :=
 def w0 : WRow := WRow.initial enc4
 
 example : EncOk enc4 ∧ EncOk encV := by decide
-example : ¬ EncOk enc255 := by decide
+example : EncOk enc255 := by decide
 
 /-- the four shapes of `generate_row`'s output for (−5, 14): special opcode alone; `const_add_pc` +
 special; `advance_pc` + special carrying the line; `advance_line` + `advance_pc` + `copy` -/
